@@ -450,6 +450,7 @@ func parkedCase(k *engine.Case) {
 			// burst: several adds, maybe a close, maybe new consumers, all at once
 			gate := make(chan struct{})
 			var wg sync.WaitGroup
+			var burstLeft atomic.Int32
 			var names []string
 			na := 1 + r.Intn(4)
 			willClose := r.Intn(3) == 0
@@ -462,7 +463,8 @@ func parkedCase(k *engine.Case) {
 				nextVal++
 				names = append(names, fmt.Sprintf("add %d ctrl=%v prior=%v", v, ctrl, prior))
 				wg.Add(1)
-				go func() { defer wg.Done(); <-gate; doAdd(v, ctrl, prior) }()
+				burstLeft.Add(1)
+				go func() { defer wg.Done(); defer burstLeft.Add(-1); <-gate; doAdd(v, ctrl, prior) }()
 			}
 			if np > 0 {
 				k.Count("adds_with_parked_consumers", int64(na))
@@ -476,7 +478,8 @@ func parkedCase(k *engine.Case) {
 					}
 				}
 				wg.Add(1)
-				go func() { defer wg.Done(); <-gate; qu.Close() }()
+				burstLeft.Add(1)
+				go func() { defer wg.Done(); defer burstLeft.Add(-1); <-gate; qu.Close() }()
 			}
 			for i := 0; i < r.Intn(3); i++ {
 				cn := spawnConsumer(gate)
@@ -486,6 +489,18 @@ func parkedCase(k *engine.Case) {
 			k.Count("burst_steps", 1)
 			Q.Wait()
 			close(gate)
+			// adds and Close must return; a burst call that is still inside the queue when every
+			// goroutine is parked never will
+			for burstLeft.Load() > 0 {
+				time.Sleep(200 * time.Microsecond)
+				if Q.IsQuiet() && burstLeft.Load() > 0 {
+					time.Sleep(10 * time.Millisecond)
+					if Q.IsQuiet() && burstLeft.Load() > 0 {
+						k.Fail("operation-stuck", "%s: %d add / close call(s) of the burst {%s} never returned (every goroutine is parked): %v", qu.Name(), burstLeft.Load(), strings.Join(names, " || "), Q.Describe())
+						return
+					}
+				}
+			}
 			wg.Wait()
 			if willClose {
 				closedDefinitely = true
